@@ -138,6 +138,46 @@ def sweep_lines(name: str, src: str, err_lines: list[int], cap: int) -> list[int
     return sorted(lines)[:cap]
 
 
+# every output mode that changes how messages are rendered (the exit status must not depend on any of them)
+OUTPUT_MODES: list[tuple[str, list[str], bool]] = [      # (name, flags, with error summary)
+    ("plain", [], False),
+    ("summary", [], True),
+    ("json", ["--output", "json"], False),
+    ("json+summary", ["--output", "json"], True),
+    ("pretty", ["--pretty"], False),
+    ("pretty+summary", ["--pretty"], True),
+    ("context", ["--show-error-context"], False),
+    ("hide-codes", ["--hide-error-codes"], False),
+    ("absolute-path", ["--show-absolute-path"], False),
+    ("columns+end", ["--show-column-numbers", "--show-error-end"], False),
+    ("code-links", ["--show-error-code-links"], True),
+    ("pretty+context+hide-codes", ["--pretty", "--show-error-context", "--hide-error-codes"], True),
+    ("json+hide-codes+context", ["--output", "json", "--hide-error-codes", "--show-error-context"], False),
+]
+
+
+def mode_programs(rng, per_class: int) -> list[tuple[str, str]]:
+    """(class, program) — (a) only errors, (b) only notes, (c) errors + notes, (d) unused ignore only, (e) a blocker,
+    (f) nothing; the texts vary (incl. the marker-like tokens of the exit-status clause)."""
+    out = []
+    for _ in range(per_class):
+        tok = rng.choice(TEXT_TOKENS + ["plain", "x"])
+        n = rng.randint(1, 9)
+        out += [
+            ("only-errors", rng.choice(["x: int = %r\n" % tok, "def f(a: int) -> None: pass\nf(%r)\nf(undefined_%d)\n" % (tok, n),
+                                        "from typing import Literal\nx: Literal[%r] = %d\n" % (tok, n)])),
+            ("only-notes", rng.choice(["reveal_type(%d)\n" % n, "from typing import Literal\nx: Literal[%r]\nreveal_type(x)\n" % tok,
+                                       "def f():\n    x: int = %r\n" % tok])),
+            ("errors+notes", rng.choice(["x: int = %r\nreveal_type(x)\n" % tok,
+                                         "class A:\n    def f(self, a: int) -> None: pass\nclass B(A):\n    def f(self, a: str) -> None: pass\n",
+                                         "def f():\n    x: int = %r\ny: str = %d\n" % (tok, n)])),
+            ("unused-ignore-only", rng.choice(["x = %d  # type: ignore\n" % n, "x = %r  # type: ignore[misc]\ny = 2\n" % tok])),
+            ("blocker", rng.choice(["x = (%d +\n" % n, "def f(:\n    pass\n", "x: int = %r\ny = ]\n" % tok])),
+            ("nothing", rng.choice(["x = %d\n" % n, "def f(a: int) -> int:\n    return a + %d\n" % n, ""])),
+        ]
+    return out
+
+
 # ------------------------------------------------------------------ recorder
 class Recording:
     def __init__(self) -> None:
@@ -310,7 +350,7 @@ def recording():
 MAIN = "<string>"
 
 
-def run_tool(workdir: str, cache: str, src: str, flags: list[str], inline: list[str] = ()) -> dict:
+def run_tool(workdir: str, cache: str, src: str, flags: list[str], inline: list[str] = (), summary: bool = False) -> dict:
     """`mypy <flags> -c <src>` through mypy.api.run while recording the sink.  `inline` are per-module
     settings appended as trailing `# mypy: ...` comment lines (they do not move any line and leave the options
     of every other module — hence the incremental cache of typeshed — untouched)."""
@@ -321,8 +361,8 @@ def run_tool(workdir: str, cache: str, src: str, flags: list[str], inline: list[
     os.chdir(workdir)
     try:
         with recording() as rs:
-            out, err, status = api.run(["--cache-dir", cache, "--no-error-summary", "--no-color-output",
-                                        "--show-traceback"] + flags + ["-c", text])
+            out, err, status = api.run(["--cache-dir", cache, "--no-color-output", "--show-traceback"]
+                                       + ([] if summary else ["--no-error-summary"]) + flags + ["-c", text])
     finally:
         os.chdir(cwd)
     return {"stdout": out, "stderr": err, "status": status, "rec": rs.main()}
